@@ -491,9 +491,9 @@ fn on_worker(secs: u64, f: impl FnOnce() -> Ran + Send + 'static) -> Caught<Ran>
         *g = None;
         return Caught::Panic("worker thread died".into());
     }
-    match w.results.recv_timeout(std::time::Duration::from_secs(secs)) {
-        Ok(r) => r,
-        Err(_) => {
+    match recv_patient(&w.results, secs) {
+        Some(r) => r,
+        None => {
             *g = None;
             Caught::Hang
         }
@@ -529,7 +529,7 @@ fn run_impl(c: &Case) -> (Caught<Ran>, bool) {
     let ids0 = c.ids.clone();
     let weights = vec![1.0f64; c.wlen];
     let (mp, mf, mb) = (c.mp, c.mf, c.mb);
-    let r = on_worker(20, move || {
+    let r = on_worker(60, move || {
         let mut p = ids0.clone();
         coupe::KernighanLin {
             max_passes: mp,
@@ -657,7 +657,7 @@ pub fn run_op(ctx: &mut Ctx, op: &str) {
             format!("panic {}", m)
         }
         Caught::Hang => {
-            verdict = Some(("hang", "watchdog (20 s)".into()));
+            verdict = Some(("hang", "watchdog (60 s)".into()));
             "hang".into()
         }
     };
